@@ -293,6 +293,10 @@ Proof.
         eapply X_loop_post_thr; [eassumption | assumption | apply IH; exact Hk0 | assumption | assumption].
 Qed.
 
+Lemma case_suffix_inv cs' cp d ft b r :
+  case_suffix cs' (CCons cp d ft b r) -> cs' = CCons cp d ft b r \/ case_suffix cs' r.
+Proof. intros H. inversion H; subst; [left; reflexivity | right; assumption]. Qed.
+
 Definition csem_exec_cases (cs : cases) : Prop :=
   (forall k, cin k (fst (csem_c cs)) = true -> exec_c cs k) /\
   (forall cs' k, case_suffix cs' cs -> cin k (fst (csem_c cs')) = true -> exec_c cs' k).
@@ -393,9 +397,9 @@ Proof.
         + apply XC_fall; [apply IHb; exact Hn | apply IH1; exact H].
       - apply XC_stop; [apply IHb; exact H | intros ->; cbn [cin] in H; congruence]. }
     split; [exact Hhead|].
-    intros cs' k Hs Hk. inversion Hs; subst.
+    intros cs' k Hs Hk. apply case_suffix_inv in Hs. destruct Hs as [-> | Hs].
     + apply Hhead. exact Hk.
-    + apply (IH2 _ _ H5 Hk).
+    + apply (IH2 _ _ Hs Hk).
 Qed.
 
 Theorem exec_iff_csem ls s k : exec ls s k <-> cin k (csem s ls) = true.
@@ -403,3 +407,114 @@ Proof. split; [apply exec_csem | apply csem_exec]. Qed.
 
 Theorem exec_l_iff_csem l k : exec_l l k <-> cin k (csem_l l) = true.
 Proof. split; [apply exec_csem | apply csem_exec]. Qed.
+
+(* ------------------------------------------------------------------ *)
+(* enters <-> reach *)
+Lemma enters_reach :
+  (forall s pi, enters s pi -> In pi (reach s)) /\
+  (forall l pi, enters_l l pi -> In pi (reach_l l)) /\
+  (forall cs pi, enters_c cs pi -> In pi (reach_c cs)).
+Proof.
+  apply enters_mutind.
+  - intros s. destruct s; left; reflexivity.
+  - intros p n pb b pi _ IH. right. exact IH.
+  - intros p pb b pi _ IH. right. exact IH.
+  - intros p b pi _ IH. right. exact IH.
+  - intros p c a pi Hc _ IH. right. rewrite Hc. exact IH.
+  - intros p c a b pi Hc _ IH. right. apply in_or_app. left. rewrite Hc. exact IH.
+  - intros p c a b pi Hc _ IH. right. apply in_or_app. right. rewrite Hc. exact IH.
+  - intros s pre b post pi Hs Hpre _ IH. rewrite (loop_shape_reach _ _ _ _ Hs). right. rewrite Hpre. exact IH.
+  - intros p cs pi _ IH. right. exact IH.
+  - intros p l b pi _ IH. right. exact IH.
+  - intros p bp blk h hb f fb pi _ IH. right. apply in_or_app. left. exact IH.
+  - intros p bp blk hp hb f fb pi Hx _ IH. right. apply in_or_app. right. apply in_or_app. left.
+    apply exec_l_iff_csem in Hx. cbn [cin] in Hx. rewrite Hx. exact IH.
+  - intros p bp blk h hb fp fb k pi Hx Hor _ IH. right. apply in_or_app. right. apply in_or_app. right.
+    apply exec_l_iff_csem in Hx.
+    rewrite (cin_nonempty k _ (catch_intro1 k h _ (csem_l hb) Hx Hor)). exact IH.
+  - intros p bp blk hp hb fp fb k pi Hx Hh _ IH. right. apply in_or_app. right. apply in_or_app. right.
+    apply exec_l_iff_csem in Hx. apply exec_l_iff_csem in Hh.
+    rewrite (cin_nonempty k _ (catch_intro2 k hp _ _ Hx Hh)). exact IH.
+  - intros s r pi _ IH. cbn [reach_l]. apply in_or_app. left. exact IH.
+  - intros s r pi Hx _ IH. cbn [reach_l]. apply in_or_app. right.
+    apply exec_iff_csem in Hx. cbn [cin] in Hx. rewrite Hx. exact IH.
+  - intros cp d ft b r pi _ IH. cbn [reach_c]. apply in_or_app. left. exact IH.
+  - intros cp d ft b r pi _ IH. cbn [reach_c]. apply in_or_app. right. exact IH.
+Qed.
+
+Lemma loop_reach_enters s pre b post pi :
+  loop_shape s = Some (pre, b, post) ->
+  (forall pi, In pi (reach b) -> enters b pi) ->
+  In pi (reach s) -> enters s pi.
+Proof.
+  intros Hs IH. rewrite (loop_shape_reach _ _ _ _ Hs). intros [<- | H]; [apply N_self|].
+  destruct (may_true pre) eqn:Hpre; [|destruct H].
+  eapply N_loop; [exact Hs | exact Hpre | apply IH; exact H].
+Qed.
+
+Lemma reach_enters :
+  (forall s pi, In pi (reach s) -> enters s pi) /\
+  (forall l pi, In pi (reach_l l) -> enters_l l pi) /\
+  (forall cs pi, In pi (reach_c cs) -> enters_c cs pi).
+Proof.
+  apply stmt_mutind.
+  - intros p e pi [<- | []]. apply (N_self (SExpr p e)).
+  - intros p pi [<- | []]. apply (N_self (SEmpty p)).
+  - intros p v i pi [<- | []]. apply (N_self (SVar p v i)).
+  - intros p n pb b IHb pi [<- | H]; [apply (N_self (SFnDecl p n pb b)) | apply N_fndecl; apply IHb; exact H].
+  - intros p pb b IHb pi [<- | H]; [apply (N_self (SArrowStmt p pb b)) | apply N_arrow; apply IHb; exact H].
+  - intros p a pi [<- | []]. apply (N_self (SRet p a)).
+  - intros p e pi [<- | []]. apply (N_self (SThrow p e)).
+  - intros p l pi [<- | []]. apply (N_self (SBrk p l)).
+  - intros p l pi [<- | []]. apply (N_self (SCont p l)).
+  - intros p b IHb pi [<- | H]; [apply (N_self (SBlock p b)) | apply N_block; apply IHb; exact H].
+  - intros p c a IHa pi [<- | H]; [apply (N_self (SIf p c a))|].
+    destruct (may_true c) eqn:Hc; [|destruct H]. apply N_if; [exact Hc | apply IHa; exact H].
+  - intros p c a IHa b IHb pi [<- | H]; [apply (N_self (SIfElse p c a b))|].
+    apply in_app_or in H. destruct H as [H|H].
+    + destruct (may_true c) eqn:Hc; [|destruct H]. apply N_ifelse_then; [exact Hc | apply IHa; exact H].
+    + destruct (may_false c) eqn:Hc; [|destruct H]. apply N_ifelse_else; [exact Hc | apply IHb; exact H].
+  - intros p c b IHb pi H. eapply loop_reach_enters; [reflexivity | exact IHb | exact H].
+  - intros p b IHb c pi H. eapply loop_reach_enters; [reflexivity | exact IHb | exact H].
+  - intros p c b IHb pi H. destruct c as [c|]; (eapply loop_reach_enters; [reflexivity | exact IHb | exact H]).
+  - intros p b IHb pi H. eapply loop_reach_enters; [reflexivity | exact IHb | exact H].
+  - intros p b IHb pi H. eapply loop_reach_enters; [reflexivity | exact IHb | exact H].
+  - intros p cs IH pi [<- | H]; [apply (N_self (SSwitch p cs)) | apply N_switch; apply IH; exact H].
+  - intros p l b IHb pi [<- | H]; [apply (N_self (SLabel p l b)) | apply N_label; apply IHb; exact H].
+  - intros p bp blk IHb h hb IHh f fb IHf pi [<- | H]; [apply (N_self (STry p bp blk h hb f fb))|].
+    apply in_app_or in H. destruct H as [H|H]; [apply N_try_block; apply IHb; exact H|].
+    apply in_app_or in H. destruct H as [H|H].
+    + destruct h as [hp|]; [|destruct H]. destruct (cT (csem_l blk)) eqn:Ht; [|destruct H].
+      apply N_try_catch; [apply exec_l_iff_csem; exact Ht | apply IHh; exact H].
+    + destruct f as [fp|]; [|destruct H].
+      destruct (cnonempty (sem_catch h (csem_l blk) (csem_l hb))) eqn:Hne; [|destruct H].
+      destruct (nonempty_cin _ Hne) as [k Hk]. apply catch_inv in Hk.
+      destruct Hk as [[Hk Hor] | [hp [-> [Ht Hk]]]].
+      * eapply N_try_finally; [apply exec_l_iff_csem; exact Hk | exact Hor | apply IHf; exact H].
+      * eapply N_try_catch_finally; [apply exec_l_iff_csem; exact Ht | apply exec_l_iff_csem; exact Hk | apply IHf; exact H].
+  - intros pi [].
+  - intros s IHs r IHr pi H. cbn [reach_l] in H. apply in_app_or in H. destruct H as [H|H].
+    + apply NL_here. apply IHs. exact H.
+    + destruct (cN (csem s [])) eqn:Hn; [|destruct H].
+      apply NL_next; [apply exec_iff_csem; exact Hn | apply IHr; exact H].
+  - intros pi [].
+  - intros cp d ft b IHb r IHr pi H. cbn [reach_c] in H. apply in_app_or in H. destruct H as [H|H].
+    + apply NC_here. apply IHb. exact H.
+    + apply NC_later. apply IHr. exact H.
+Qed.
+
+Theorem enters_iff_reach s pi : enters s pi <-> In pi (reach s).
+Proof. split; [apply enters_reach | apply reach_enters]. Qed.
+
+Theorem enters_l_iff_reach l pi : enters_l l pi <-> In pi (reach_l l).
+Proof. split; [apply enters_reach | apply reach_enters]. Qed.
+
+Theorem prog_enters_iff p pi : prog_enters p pi <-> memN pi (prog_reach p) = true.
+Proof. unfold prog_enters, prog_reach. rewrite memN_In. apply enters_l_iff_reach. Qed.
+
+Theorem prog_falls_off_iff p : prog_falls_off_end p <-> prog_can_fall_off p = true.
+Proof. unfold prog_falls_off_end, prog_can_fall_off. apply (exec_l_iff_csem (p_body p) Normal). Qed.
+
+Print Assumptions exec_iff_csem.
+Print Assumptions prog_enters_iff.
+Print Assumptions prog_falls_off_iff.
